@@ -65,6 +65,10 @@ static int library_terminate = FALSE;
 /* Local Function Declarations */
 static bitrec_t *HIget_bitfile_rec(void);
 
+/* A block offset no byte offset can be near: forces the next Hbitseek to fetch its block afresh.
+   ((int32)LONG_MIN, used before, is 0 where long has 64 bits - i.e. the first block itself.) */
+#define BITOFF_BOGUS ((int32)(-2147483647 - 1))
+
 static int HIbitflush(bitrec_t *bitfile_rec, int flushbit, int writeout);
 
 static int HIwrite2read(bitrec_t *bitfile_rec);
@@ -824,9 +828,25 @@ static int
 HIread2write(bitrec_t *bitfile_rec)
 {
 
-    bitfile_rec->block_offset = (int32)LONG_MIN; /* set to bogus value */
+    /* The position reached by reading, in bits: the bytes taken from the buffer so far, less the
+       bits of the last one that have not been handed out yet.  (byte_offset alone does not tell:
+       Hbitseek and Hbitread differ on whether it counts a partly consumed byte, and with no bit
+       pending 'BITNUM - count' is not a bit offset at all.) */
+    int32 bit_posn = (bitfile_rec->block_offset + (int32)(bitfile_rec->bytep - bitfile_rec->bytea)) * (int32)BITNUM -
+                     (int32)bitfile_rec->count;
+
+    /* in write mode the element is positioned at the start of the buffered block (that is where
+       a flush writes the buffer); reading has left it behind the block */
+    if (Hseek(bitfile_rec->acc_id, bitfile_rec->block_offset, DF_START) == FAIL)
+        HRETURN_ERROR(DFE_SEEKERROR, FAIL);
+
+    bitfile_rec->block_offset = BITOFF_BOGUS; /* set to bogus value */
     bitfile_rec->mode         = 'w';             /* change to write mode */
-    if (Hbitseek(bitfile_rec->bit_id, bitfile_rec->byte_offset, ((int)BITNUM - bitfile_rec->count)) == FAIL)
+    /* nothing is pending for output yet: the bits buffered for reading must not be taken for
+       half a byte waiting to be merged when the seek below flushes */
+    bitfile_rec->count = BITNUM;
+    bitfile_rec->bits  = 0;
+    if (Hbitseek(bitfile_rec->bit_id, bit_posn / (int32)BITNUM, (int)(bit_posn % (int32)BITNUM)) == FAIL)
         HRETURN_ERROR(DFE_INTERNAL, FAIL);
     return SUCCEED;
 } /* HIread2write */
@@ -857,7 +877,7 @@ HIwrite2read(bitrec_t *bitfile_rec)
     if (HIbitflush(bitfile_rec, -1, TRUE) == FAIL) /* flush any leftover bits */
         HRETURN_ERROR(DFE_WRITEERROR, FAIL);
 
-    bitfile_rec->block_offset = (int32)LONG_MIN; /* set to bogus value */
+    bitfile_rec->block_offset = BITOFF_BOGUS; /* set to bogus value */
     bitfile_rec->mode         = 'r';             /* change to read mode */
     if (Hbitseek(bitfile_rec->bit_id, prev_offset, ((int)BITNUM - prev_count)) == FAIL)
         HRETURN_ERROR(DFE_INTERNAL, FAIL);
